@@ -11,7 +11,7 @@ open Swat4
 
 /-! ## the ratio fields (`TocReports`, `WeaponsSecured`) -/
 
-def isDigit (c : UInt8) : Bool := 0x30 ≤ c && c ≤ 0x39
+def isDigit (c : UInt8) : Bool := 48 ≤ c.toNat && c.toNat ≤ 57
 
 /-- decimal value of a digit string -/
 def decVal (ds : Bytes) : Nat := ds.foldl (fun a c => a * 10 + (c.toNat - 48)) 0
